@@ -10,7 +10,9 @@ EXTENDS Integers, Sequences, FiniteSets, TLC
 
 CONSTANTS Diffs,        \* set of non-empty diff values (positive integers); 0 = empty diff
           MaxHeight,
-          DropOnReset   \* TRUE: ResetTo removes the diffs of the reverted heights (repaired code)
+          DropOnReset,  \* TRUE: ResetTo removes the diffs of the reverted heights (repaired code)
+          DiffFirst     \* TRUE: insertBlock writes the diff BEFORE the steps that can fail (content store); the code writes it
+                        \* after them and after the head (FALSE)
 
 VARIABLES chain,   \* sequence of diffs of the canonical blocks (index = height)
           store    \* [1..MaxHeight -> Diffs \cup {0}]: stored diff per height (0 = none stored)
@@ -26,7 +28,12 @@ ResetTo(h) == /\ h \in 0..(Len(chain) - 1)
               /\ chain' = SubSeq(chain, 1, h)
               /\ store' = IF DropOnReset THEN [x \in 1..MaxHeight |-> IF x > h THEN 0 ELSE store[x]] ELSE store
 
-Next == (\E d \in Diffs \cup {0} : AddBlock(d)) \/ (\E h \in 0..MaxHeight : ResetTo(h))
+\* an insertion that FAILS (the content store refuses the body): the block is not inserted, the chain goes on with another
+\* block at that height; nothing of the failed attempt may stay
+FailedInsert(d) == /\ Len(chain) < MaxHeight /\ chain' = chain
+                   /\ store' = IF DiffFirst /\ d # 0 THEN [store EXCEPT ![Len(chain) + 1] = d] ELSE store
+
+Next == (\E d \in Diffs \cup {0} : AddBlock(d)) \/ (\E h \in 0..MaxHeight : ResetTo(h)) \/ (\E d \in Diffs : FailedInsert(d))
 
 \* what a follower needs: the served diff of every canonical height is the canonical block's diff
 FollowerRoot == \A h \in 1..Len(chain) : store[h] = chain[h]
